@@ -404,4 +404,62 @@ def r05_9(ctx):
                 ctx.ob("R05.9", f"{short(f.id)}:forwards-need_quote", okf, f.loc(t["ln"]), "need_quote is forwarded unchanged" if okf else "need_quote is not forwarded to the callee")
 
 
-RULES = [("R05.1", r05_1), ("R05.2", r05_2), ("R05.3", r05_3), ("R05.4", r05_4), ("R05.7", r05_7), ("R05.9", r05_9)]
+def r05_8(ctx):
+    """every vector load from the source string in format_string reads LANES bytes: it is either inside
+    the `nb >= LANES` loop, or goes through the zero-padded temporary, or lies on the no-page-crossing edge
+    of check_cross_page(ptr, LANES) (the over-read stays inside the page that holds the last valid byte)"""
+    # the unguarded-by-copy tail load only exists without debug assertions (what a release build ships):
+    # the quick tier analyses that configuration too
+    cfgs = [ctx.default_config] + (["native-nodebug"] if ctx.default_config == "native" else [])
+    for cfg in cfgs:
+        _r05_8_cfg(ctx, cfg)
+
+
+def _r05_8_cfg(ctx, cfg):
+    prog = ctx.prog(cfg)
+    tag = "" if cfg == "native" else f"{cfg}:"
+    f = prog.find("util::string::format_string")
+    lanes = prog.const_int("format_string::LANES")
+    loads = [(b, t) for b, t in f.calls() if callee_is(t, "load") and "string::load" in t["callee"]]
+    ctx.floor("R05.8", f"{tag}vector loads in format_string", len(loads), 2)
+    ccp = [(b, t) for b, t in f.calls() if callee_is(t, "check_cross_page")]
+    cc = prog.find("util::string::check_cross_page")
+    consts = sorted({op_int(o) for b, s, o in cc.const_operands() if op_int(o) is not None and op_int(o) > 1})
+    page_ok = bool(consts) and all(c & (c - 1) == 0 and c >= lanes for c in consts)
+    k = 0
+    for b, t in loads:
+        k += 1
+        l = op_local(t["args"][0])
+        s0 = f.src(l) if l is not None else ("multi",)
+        via_temp = s0[0] == "call" and callee_is(s0[2], "as_ptr")
+        if via_temp:
+            # the temporary is LANES bytes long
+            ctx.ob("R05.8", f"{tag}load#{k}:temp", True, f.loc(t["ln"]), "load from the zero-padded LANES-byte temporary")
+            continue
+        # direct load from the source pointer
+        in_loop = False
+        for bb, i, s in f.assigns():
+            rv = s["rv"]
+            if rv["k"] == "binop" and rv["op"] in ("Ge", "Gt", "Lt", "Le") and (op_int(rv["b"]) == lanes or op_int(rv["a"]) == lanes) and f.dominates(bb, b):
+                e = bool_switch_edges(f, s["lhs"][0])
+                if not e:
+                    continue
+                enough = e[0] if (rv["op"] in ("Ge", "Gt") and op_int(rv["b"]) == lanes) or (rv["op"] in ("Le", "Lt") and op_int(rv["a"]) == lanes) else e[1]
+                other = e[1] if enough == e[0] else e[0]
+                strict_ok = not (rv["op"] == "Gt" and op_int(rv["b"]) == lanes and False)
+                if b in f.reachable_from(enough) and b not in f.reachable_from(other, avoid={enough}):
+                    in_loop = True
+        guarded = False
+        for cb, ct in ccp:
+            if f.dominates(cb, b) and op_int(ct["args"][1]) == lanes:
+                e = bool_switch_edges(f, ct["dest"][0])
+                if e and b in f.reachable_from(e[1]) and b not in f.reachable_from(e[0], avoid={e[1]}):
+                    guarded = True
+        ok = in_loop or (guarded and page_ok)
+        ctx.ob("R05.8", f"{tag}load#{k}:direct", ok, f.loc(t["ln"]),
+               ("direct load inside the `nb >= LANES` loop" if in_loop else f"direct tail load on the no-page-crossing edge of check_cross_page(ptr, {lanes}) with page size {consts}") if ok else
+               f"a {lanes}-byte vector load from the source pointer is neither inside the full-block loop nor guarded by the page-crossing check: it can read past the end of the string into an unmapped page")
+    ctx.ob("R05.8", f"{tag}check_cross_page:page-constant", page_ok, cc.loc(), f"page constant(s) {consts}: power of two >= LANES {lanes}")
+
+
+RULES = [("R05.1", r05_1), ("R05.2", r05_2), ("R05.3", r05_3), ("R05.4", r05_4), ("R05.7", r05_7), ("R05.8", r05_8), ("R05.9", r05_9)]
